@@ -430,8 +430,18 @@ func c17Types() []c17Type {
 		}},
 	}})
 	// registries
+	// tag slices with spare capacity: an implementation that appends to a shared slice writes into the
+	// same backing array from both threads
+	spare := func(t string) []string { s := make([]string, 1, 8); s[0] = t; return s }
 	regOps := func() []c17Op {
 		return []c17Op{
+			{"RegisterCount(t,tags...)+AddSample(tag)", func(i any) { i.(core.MetricRegistry).RegisterCount("t", spare("a:b")...).AddSample(1, spare("k:1")...) }},
+			{"RegisterDistribution(u,tags...)+AddSample(tag)", func(i any) {
+				i.(core.MetricRegistry).RegisterDistribution("u", spare("a:b")...).AddSample(1, spare("k:2")...)
+			}},
+			{"RegisterTiming(w,tags...)+AddSample(tag)", func(i any) {
+				i.(core.MetricRegistry).RegisterTiming("w", spare("a:b")...).AddSample(1, spare("k:3")...)
+			}},
 			{"RegisterDistribution(x)+AddSample", func(i any) { i.(core.MetricRegistry).RegisterDistribution("x").AddSample(1) }},
 			{"RegisterTiming(y)+AddSample", func(i any) { i.(core.MetricRegistry).RegisterTiming("y").AddSample(1) }},
 			{"RegisterCount(x)+AddSample", func(i any) { i.(core.MetricRegistry).RegisterCount("x").AddSample(1) }},
